@@ -49,7 +49,15 @@ CHECKS["C05"] = (
     "and start/stop predicates against the standard code on a concrete genome (offsets enumerated by the solver).",
     _NOTE + " Sequence legs: inputs are realised, the body then runs natively; the solver closes the finite input space.",
     "DESIGN.md §3 C05")
-for _p in ["C03", "C04", "C07", "C08", "C09", "C10", "C11", "C13", "C15", "C17", "C18",
+CHECKS["C15"] = (
+    "z3 function-table queries over the live tables + CrossHair on the algebraic laws and the real Codon class (finite domains closed by the solver)",
+    "The finite domains are decided completely: gencode vs the standard code (64), every expansion of every translatable IUPAC "
+    "triplet (16^3), aacodons partition, start/stop sets vs NCBI tables 1/11, complement tables (totality, IUPAC agreement, "
+    "involution, case) as unsat z3 queries over tables read from the live modules; CDSFrame.shift laws for ALL integers, "
+    "frame<->phase, strand group/order laws and the real Codon class on all 4096 IUPAC triplets by CrossHair.",
+    "Trusted: Bio.Data.CodonTable / IUPACData as reference tables; z3 5.1 (cvc5 1.4 cross-check); CrossHair for the laws.",
+    "DESIGN.md §3 C15")
+for _p in ["C03", "C04", "C07", "C08", "C09", "C10", "C11", "C13", "C17", "C18",
            "C19", "C20"]:
     NOT_APPLICABLE[_p] = "check not built yet (build in progress; see DESIGN.md §3 for the planned solver-based check)"
 NOT_APPLICABLE["C12"] = ("GenBank writer cannot emit a feature on the installed Biopython (SeqFeature(strand=) TypeError), the "
